@@ -156,7 +156,7 @@ func (c MCmd) build(file string) (cmd runner, decodeErr string) {
 		if joinLines(ls) == "" {
 			return nil, "empty value"
 		}
-		s, err := klog.NewEntrySummary(ls...)
+		s, err := klog.NewEntrySummary(append([]string(nil), ls...)...) // a copy: klog's pause modifies the summary it is given in place
 		if err != nil {
 			return nil, "blank line in entry summary"
 		}
